@@ -159,7 +159,7 @@ class Trend(BaseGridder):
 
         """
         check_is_fitted(self, ["coef_"])
-        easting, northing = n_1d_arrays(coordinates, 2)
+        easting, northing = n_1d_arrays(np.broadcast_arrays(*coordinates[:2]), 2)
         shape = np.broadcast(*coordinates[:2]).shape
         # Integer coordinates still produce floating point predictions
         data = np.zeros(easting.size, dtype=np.promote_types(easting.dtype, "float32"))
